@@ -25,7 +25,8 @@ RULE = ('exhaustive enumeration of every (tax year, filing status, statutory amo
         'credit limits, recovery rebate amounts, NC rate, NC standard and child deductions, foreign tax limit), each observed through a '
         'probe on the real line definition with 3 (quick) / 20 (thorough) drawn backgrounds. A probe is non-trivial when the observed '
         'line/branch actually depends on the amount: the straddle flips, or the echoed value equals the table value; distinct = '
-        '(year, status, amount id)')
+        '(year, status, amount id)'
+        ' Every triple is evaluated once more in one process, forwards then backwards (an amount must not depend on which amounts were looked up before it).')
 ASSUMPTIONS = ['data/statute.json transcribes the published amounts (sources per entry); amounts printed in the templates are cross-checked at run time',
                'probe reads (which lines/inputs make the amount show) are part of the harness']
 
